@@ -66,7 +66,17 @@ class C04(Engine):
 
     def instantiate(self, rng, seq, mode, idx, io_fault=None):
         P = self.pools
-        fids = [self.members[c][rng.randrange(len(self.members[c]))] for c in seq]
+        fids = []
+        for c in seq:
+            cand = self.members[c]
+            if fids and rng.random() < 0.3:
+                # name-keyed state would show between two different files of one name (or one stem): prefer such a member
+                names = set(P.files[f]["name"] for f in fids)
+                stems = set(n.rsplit(".", 1)[0] for n in names)
+                same = [f for f in cand if f not in fids and (P.files[f]["name"] in names or P.files[f]["name"].rsplit(".", 1)[0] in stems)]
+                if same:
+                    cand = same
+            fids.append(cand[rng.randrange(len(cand))])
         tree = {}
         paths = []
         root = tree
@@ -215,7 +225,7 @@ class C04(Engine):
         seqdesc = f"mode={mode} classes={classes}"
 
         def V(clause, site, **d):
-            d["sequence"] = classes
+            d["sequence"] = classes if len(classes) <= 12 else classes[:12] + [f"... {len(classes)} files"]
             d["mode"] = mode
             d["stdout_head"] = strip_ansi(o.get("stdout", ""))[:200]
             return Violation(self.prop, clause, site, d)
